@@ -117,6 +117,8 @@ type world struct {
 	hist  []string
 	kinds []string
 
+	nsteps int
+
 	ntAbortOverlap   bool
 	ntTimeoutOverlap bool
 	ntDup            bool
@@ -155,8 +157,20 @@ func (w *world) dump() string {
 }
 
 func (w *world) fail(format string, a ...any) {
-	w.rt.Fatalf("%s\n%s", fmt.Sprintf(format, a...), w.dump())
+	msg := fmt.Sprintf("%s\n%s", fmt.Sprintf(format, a...), w.dump())
+	// rapid re-runs shrunk bit streams; where kfake itself is not a function of the
+	// requests (map iteration order in fetch sessions) a re-run can take another path, so
+	// the shortest failing history seen is kept and printed at the end of the test
+	if shortest == "" || len(w.hist) < shortestLen {
+		shortest, shortestLen = msg, len(w.hist)
+	}
+	w.rt.Fatalf("%s", msg)
 }
+
+var (
+	shortest    string
+	shortestLen int
+)
 
 func keys(m map[int32]bool) []int32 {
 	var out []int32
@@ -198,6 +212,11 @@ func (w *world) partsOf(node int32) []int32 {
 // ---------------------------------------------------------------------------------
 
 func TestPartitionLog(t *testing.T) {
+	defer func() {
+		if shortest != "" {
+			fmt.Printf("C32: shortest failing history observed (%d steps):\n%s\n", shortestLen, shortest)
+		}
+	}()
 	rapid.Check(t, func(rt *rapid.T) {
 		var w *world
 		bubble.Run(t, rt, func(e *bubble.Env) {
@@ -232,8 +251,8 @@ func TestPartitionLog(t *testing.T) {
 		if nt {
 			ev.SampleIf(func() any {
 				h := w.hist
-				if len(h) > 40 {
-					h = h[:40]
+				if len(h) > 14 {
+					h = h[:14]
 				}
 				return map[string]any{"brokers": len(w.nodes), "partitions": len(w.parts), "history_head": h}
 			})
@@ -377,19 +396,19 @@ func (w *world) step() {
 	}
 	add("produce-plain", 3, func() { w.actProducePlain() })
 	if len(idem) > 0 {
-		add("produce-idem", 5, func() { w.actProduceSeq(rapid.SampledFrom(idem).Draw(rt, "producer")) })
+		add("produce-idem", 5, func() { w.actProduceSeq(idem[w.pick(len(idem), "producer")]) })
 	}
-	add("produce-txn", 9, func() { w.actProduceTxn(rapid.SampledFrom(txn).Draw(rt, "producer")) })
-	add("add-partitions", 2, func() { w.actAddPartitions(rapid.SampledFrom(txn).Draw(rt, "producer")) })
+	add("produce-txn", 9, func() { w.actProduceTxn(txn[w.pick(len(txn), "producer")]) })
+	add("add-partitions", 2, func() { w.actAddPartitions(txn[w.pick(len(txn), "producer")]) })
 	if len(txnOpen) > 0 {
-		add("end-txn", 5, func() { w.actEndTxn(rapid.SampledFrom(txnOpen).Draw(rt, "producer")) })
-		add("reinit-kip360", 1, func() { w.actReinit(rapid.SampledFrom(txnOpen).Draw(rt, "producer"), true) })
+		add("end-txn", 5, func() { w.actEndTxn(txnOpen[w.pick(len(txnOpen), "producer")]) })
+		add("reinit-kip360", 1, func() { w.actReinit(txnOpen[w.pick(len(txnOpen), "producer")], true) })
 	}
 	if len(txnStale) > 0 {
-		add("end-txn-stale", 2, func() { w.actEndTxnStale(rapid.SampledFrom(txnStale).Draw(rt, "producer")) })
-		add("reinit-stale", 4, func() { w.actReinit(rapid.SampledFrom(txnStale).Draw(rt, "producer"), false) })
+		add("end-txn-stale", 2, func() { w.actEndTxnStale(txnStale[w.pick(len(txnStale), "producer")]) })
+		add("reinit-stale", 4, func() { w.actReinit(txnStale[w.pick(len(txnStale), "producer")], false) })
 	}
-	add("reinit", 1, func() { w.actReinit(rapid.SampledFrom(txn).Draw(rt, "producer"), rapid.Bool().Draw(rt, "kip360")) })
+	add("reinit", 1, func() { w.actReinit(txn[w.pick(len(txn), "producer")], rapid.Bool().Draw(rt, "kip360")) })
 	sleepW := 1
 	if len(txnOpen) > 0 {
 		sleepW = 3
@@ -406,7 +425,10 @@ func (w *world) step() {
 	for _, a := range acts {
 		total += a.weight
 	}
-	x := rapid.IntRange(0, total-1).Draw(rt, "action")
+	// rapid's integer generators favour small values; rotating by the step number spreads
+	// that preference over all actions while the choice stays a function of the bit stream
+	x := (rapid.IntRange(0, total-1).Draw(rt, "action") + w.nsteps*17) % total
+	w.nsteps++
 	for _, a := range acts {
 		if x < a.weight {
 			a.run()
@@ -415,6 +437,8 @@ func (w *world) step() {
 		x -= a.weight
 	}
 }
+
+func (w *world) pick(n int, label string) int { return rapid.IntRange(0, n-1).Draw(w.rt, label) }
 
 func (w *world) kind(k string) {
 	w.kinds = append(w.kinds, k)
@@ -470,7 +494,9 @@ func (w *world) actProduceSeq(pr *producer) {
 	w.produceSeq(pr, p, false)
 }
 
-func (w *world) produceSeq(pr *producer, p *mPart, txn bool) {
+func (w *world) produceSeq(pr *producer, p *mPart, txn bool) { w.produceSeqVariants(pr, p, txn, false) }
+
+func (w *world) produceSeqVariants(pr *producer, p *mPart, txn, onlyNext bool) {
 	rt := w.rt
 	x := w.xfor(pr)
 	win := p.window(pr.PID)
@@ -507,36 +533,27 @@ func (w *world) produceSeq(pr *producer, p *mPart, txn bool) {
 	if txn && pr.SrvEpoch > 0 {
 		variants = append(variants, "old-epoch")
 	}
+	if onlyNext {
+		variants = variants[:1]
+	}
 	v := rapid.SampledFrom(variants).Draw(rt, "variant")
 	txid := ""
 	if txn {
 		txid = pr.TxID
 	}
-	hwm := p.HWM
 	tag := pr.Tag
 	switch v {
 	case "next":
-		n, vl := w.drawShape()
-		seq := next
-		if !seen && !txn {
-			// a broker accepts any first sequence from a producer it has no state for
-			seq = rapid.SampledFrom([]int32{0, 0, 7, int32(two31 - 2), int32(two31 - 1)}).Draw(rt, "first-sequence")
+		if seen && !txn && rapid.IntRange(0, 3).Draw(rt, "burst") == 3 {
+			// several in-sequence batches in a row, so that older ones leave the
+			// five-batch window
+			for i := 0; i < 4; i++ {
+				w.sendNext(pr, p, false, true)
+			}
 		}
-		b := buildBatch(pr.PID, pr.Epoch, seq, n, txn, w.nowMs(), vl, tag)
-		ec, base, _ := x.produce(p.Leader, w.tm.id, p.ID, b, txid)
-		w.logf("produce %s p%d seq=%d n=%d epoch=%d txn=%v size=%d -> err=%d base=%d", pr.Name, p.ID, seq, n, pr.Epoch, txn, len(b), ec, base)
-		w.kind("produce-next")
-		if ec != 0 {
-			w.fail("%s: in-sequence batch (seq %d, epoch %d) to p%d rejected with error %d (%v)", pr.Name, seq, pr.Epoch, p.ID, ec, kerr.ErrorForCode(ec))
-		}
-		if base != hwm {
-			w.fail("%s: appended batch got base offset %d, the high watermark of p%d was %d", pr.Name, base, p.ID, hwm)
-		}
-		p.appendData(mBatch{Count: n, PID: pr.PID, Epoch: pr.Epoch, FirstSeq: seq, Txn: txn, Size: len(b), Tail: b[21:], TS: w.nowMs()})
-		p.recordSeq(pr.PID, pr.Epoch, seq, n, base)
-		pr.Sent[p.ID] = append(pr.Sent[p.ID], sentBatch{pr.Epoch, seq, n, base, b})
+		w.sendNext(pr, p, txn, seen)
 	case "dup":
-		s := rapid.SampledFrom(recent).Draw(rt, "resend")
+		s := recent[w.pick(len(recent), "resend")]
 		ec, base, _ := x.produce(p.Leader, w.tm.id, p.ID, s.Bytes, txid)
 		w.logf("produce %s p%d RESEND seq=%d n=%d (original base %d) -> err=%d base=%d", pr.Name, p.ID, s.FirstSeq, s.Count, s.Base, ec, base)
 		w.kind("produce-dup")
@@ -555,11 +572,11 @@ func (w *world) produceSeq(pr *producer, p *mPart, txn bool) {
 			seq = int32((int64(next) + int64(g)) % two31)
 			n = 1
 		case "resized":
-			s := rapid.SampledFrom(recent).Draw(rt, "resend")
+			s := recent[w.pick(len(recent), "resend")]
 			seq = s.FirstSeq
 			n = s.Count%3 + 1
 		case "evicted":
-			s := rapid.SampledFrom(evicted).Draw(rt, "resend")
+			s := evicted[w.pick(len(evicted), "resend")]
 			seq, n = s.FirstSeq, s.Count
 		}
 		b := buildBatch(pr.PID, pr.Epoch, seq, n, txn, w.nowMs(), 5, tag)
@@ -583,6 +600,39 @@ func (w *world) produceSeq(pr *producer, p *mPart, txn bool) {
 		}
 		ev.Class(fmt.Sprintf("old-epoch-error:%d", ec))
 	}
+}
+
+// sendNext sends the batch an in-sync producer sends next and requires it to be appended
+// at the high watermark.
+func (w *world) sendNext(pr *producer, p *mPart, txn, seen bool) {
+	rt := w.rt
+	x := w.xfor(pr)
+	next, _ := clientNextSeq(pr, p)
+	hwm := p.HWM
+	tag := pr.Tag
+	txid := ""
+	if txn {
+		txid = pr.TxID
+	}
+	n, vl := w.drawShape()
+	seq := next
+	if !seen && !txn {
+		// a broker accepts any first sequence from a producer it has no state for
+		seq = rapid.SampledFrom([]int32{0, 0, 7, int32(two31 - 2), int32(two31 - 1)}).Draw(rt, "first-sequence")
+	}
+	b := buildBatch(pr.PID, pr.Epoch, seq, n, txn, w.nowMs(), vl, tag)
+	ec, base, _ := x.produce(p.Leader, w.tm.id, p.ID, b, txid)
+	w.logf("produce %s p%d seq=%d n=%d epoch=%d txn=%v size=%d -> err=%d base=%d", pr.Name, p.ID, seq, n, pr.Epoch, txn, len(b), ec, base)
+	w.kind("produce-next")
+	if ec != 0 {
+		w.fail("%s: in-sequence batch (seq %d, epoch %d) to p%d rejected with error %d (%v)", pr.Name, seq, pr.Epoch, p.ID, ec, kerr.ErrorForCode(ec))
+	}
+	if base != hwm {
+		w.fail("%s: appended batch got base offset %d, the high watermark of p%d was %d", pr.Name, base, p.ID, hwm)
+	}
+	p.appendData(mBatch{Count: n, PID: pr.PID, Epoch: pr.Epoch, FirstSeq: seq, Txn: txn, Size: len(b), Tail: b[21:], TS: w.nowMs()})
+	p.recordSeq(pr.PID, pr.Epoch, seq, n, base)
+	pr.Sent[p.ID] = append(pr.Sent[p.ID], sentBatch{pr.Epoch, seq, n, base, b})
 }
 
 func (w *world) actAddPartitions(pr *producer) {
@@ -643,6 +693,18 @@ func (w *world) actProduceTxn(pr *producer) {
 			w.actReinit(pr, false)
 			return
 		}
+		if !pr.Legacy {
+			// a broker rejects the batch and nothing changes: no transaction begins
+			p := w.drawPart("partition")
+			b := buildBatch(pr.PID, pr.Epoch, 0, 1, true, w.nowMs(), 5, pr.Tag)
+			ec, base, _ := w.xfor(pr).produce(p.Leader, w.tm.id, p.ID, b, pr.TxID)
+			w.logf("produce %s p%d FENCED epoch %d (current %d), Produce v12+ outside a transaction -> err=%d base=%d", pr.Name, p.ID, pr.Epoch, pr.SrvEpoch, ec, base)
+			w.kind("produce-fenced-v12")
+			if ec == 0 {
+				w.fail("%s: batch with fenced epoch %d (current %d) was accepted on p%d at offset %d", pr.Name, pr.Epoch, pr.SrvEpoch, p.ID, base)
+			}
+			return
+		}
 		w.actReinit(pr, false)
 		return
 	}
@@ -656,9 +718,15 @@ func (w *world) actProduceTxn(pr *producer) {
 		p = w.parts[rapid.SampledFrom(keys(pr.TxParts)).Draw(rt, "partition")]
 	} else {
 		p = w.drawPart("partition")
-		// Produce v12+: the partition is added implicitly, the transaction begins
-		w.beginIfNeeded(pr)
-		pr.TxParts[p.ID] = true
+		if !(pr.InTx && pr.TxParts[p.ID]) {
+			// Produce v12+: the partition is added implicitly and the transaction begins.
+			// Only an in-sequence batch is sent in that situation: what a rejected batch
+			// leaves behind at the coordinator is not part of the property.
+			w.beginIfNeeded(pr)
+			pr.TxParts[p.ID] = true
+			w.produceSeqVariants(pr, p, true, true)
+			return
+		}
 	}
 	w.produceSeq(pr, p, true)
 }
@@ -824,7 +892,9 @@ func (w *world) actDeleteRecords() {
 func (w *world) actListOffsets() {
 	rt := w.rt
 	p := w.drawPart("partition")
-	iso := int8(rapid.IntRange(0, 1).Draw(rt, "isolation"))
+	// read_uncommitted only: a broker bounds read_committed lookups by the last stable
+	// offset, which is outside the property
+	iso := int8(0)
 	w.kind("list-offsets")
 	// earliest/latest are compared after every step (probeBounds); here: max-timestamp
 	// and timestamp lookups
@@ -924,7 +994,7 @@ func (w *world) drawOffset(p *mPart, sp *sessPart) int64 {
 }
 
 func (w *world) drawMax(label string) int32 {
-	return rapid.SampledFrom([]int32{1, 90, 150, 200, 300, 450, 700, 1 << 20, 1 << 20, 1 << 20}).Draw(w.rt, label)
+	return rapid.SampledFrom([]int32{1 << 20, 150, 1, 300, 90, 200, 450, 700}).Draw(w.rt, label)
 }
 
 func (w *world) actFetch() {
@@ -937,16 +1007,20 @@ func (w *world) actFetch() {
 			mine = append(mine, s)
 		}
 	}
-	kinds := []string{"sessionless", "sessionless", "new-session", "new-session"}
+	var kinds []string
 	if len(mine) > 0 {
-		kinds = append(kinds, "incremental", "incremental", "incremental", "incremental", "incremental", "incremental", "bad-epoch", "close-session")
+		kinds = append(kinds, "incremental", "incremental", "incremental", "incremental")
+	}
+	kinds = append(kinds, "new-session", "sessionless", "sessionless")
+	if len(mine) > 0 {
+		kinds = append(kinds, "close-session", "bad-epoch")
 	}
 	kinds = append(kinds, "unknown-session")
 	k := rapid.SampledFrom(kinds).Draw(rt, "fetch-kind")
 	fr := fetchReq{Node: node, Isolation: int8(rapid.IntRange(0, 1).Draw(rt, "isolation")), MaxBytes: w.drawMax("max-bytes")}
 	var s *mSession
 	if k == "incremental" || k == "bad-epoch" || k == "close-session" {
-		s = rapid.SampledFrom(mine).Draw(rt, "session")
+		s = mine[w.pick(len(mine), "session")]
 	}
 	// request partitions
 	switch k {
